@@ -131,6 +131,29 @@ def body_scan(case, rec):
         raise Violation(f"a pair was reported more than once: {seen}")
     if set(seen) != want:
         raise Violation(f"scan reported {sorted(seen)}, brute force finds {sorted(want)}")
+    second_scan(case, asm)
+
+
+def second_scan(case, asm):
+    """a row is replaced in place (as trimming and reversal do) and the scan is repeated on the same assembly object"""
+    rep = case.get("replace")
+    if not rep:
+        return
+    scaffolds = [[n, [list(r) for r in rows]] for n, rows in case["scaffolds"]]
+    frs = [(si, ri) for si, (_n, rows) in enumerate(scaffolds) for ri, r in enumerate(rows) if r[0] == "F"]
+    if not frs:
+        return
+    si, ri = frs[rep[0] % len(frs)]
+    old = scaffolds[si][1][ri]
+    new = ["F", old[1], rep[1], rep[1] + rep[2], old[4]]
+    scaffolds[si][1][ri] = new
+    asm.scaffolds[si].rows[ri] = conv.mk_row(new)
+    _f, want2, _d = brute_pairs(scaffolds)
+    pos = {id(row): (a, b) for a, sc in enumerate(asm.scaffolds) for b, row in enumerate(sc.rows)}
+    got2 = must(asm.find_overlapping_fragments, what="find_overlapping_fragments (second scan)") or []
+    seen2 = {tuple(sorted((pos[id(f1)], pos[id(f2)]))) for (f1, _s1), (f2, _s2) in got2}
+    if seen2 != want2 or len(got2) != len(want2):
+        raise Violation(f"after a row was replaced in place the second scan reports {sorted(seen2)}, brute force finds {sorted(want2)}")
 
 
 def body_cli(case, rec):
@@ -187,7 +210,9 @@ def assemblies(draw):
             rows.append(["F", draw(st.sampled_from(names)), a, b, draw(st.sampled_from([1, -1, 0]))])
         if rows:
             scaffolds.append([f"s{si + 1}", rows])
-    return {"scaffolds": scaffolds}
+    if len(scaffolds) >= 3 and draw(st.integers(0, 3)) == 0:
+        scaffolds[2][0] = scaffolds[0][0]  # an object name that re-appears after another object (legal, interleaved layout)
+    return {"scaffolds": scaffolds, "replace": [draw(st.integers(0, 50)), draw(st.integers(1, hi)), draw(st.integers(0, 3))] if draw(st.booleans()) else None}
 
 
 SUBS = [
